@@ -13,7 +13,7 @@ INFO = {
                "comparison in front of it; every sort is a stable algorithm except sort_unique (ties removed by "
                "dedup); the --sort-by bucket sorter is FIFO within a key, evicts the newest row of the worst key, "
                "mirrors ASC/DESC, and only the sorter adjacent to the limiter gets a capacity; sorters are chained "
-               "in forward option order. Ord for NumberValue, evaluated by partial evaluation on all pairs of a universe of representations in the interoperable range, orders by exact value; natural-order sorts are over JSON values (or Option of one) or String keys only, never tuples.",
+               "in forward option order. Ord for NumberValue, evaluated by partial evaluation on all pairs of a universe of representations in the interoperable range, orders by exact value; natural-order sorts are over JSON values (or Option of one) or String keys only, never tuples. A same-type comparison that consults several comparators (objects: size, sorted key lists, text) is a lexicographic cascade for every combination of comparator outcomes, so the relation stays transitive.",
     "not_decided": "That NumberValue::cmp / total_cmp and the object comparison form a total order on run-time "
                    "values, and that outputs are permutations of inputs.",
     "trusted": ["sa/tables/json_order.toml", "std: slice::sort / sort_by are stable, sort_unstable* are not; "
@@ -28,6 +28,7 @@ ONE_ORDER = ("<json_value::JsonValue as std::cmp::Ord>::cmp",
              "<std::string::String as std::cmp::Ord>::cmp",
              "<std::vec::Vec<json_value::JsonValue> as std::cmp::Ord>::cmp")
 NAS_PREFIX = "functions::number_as_string::"
+ORD = {0: "Less", 1: "Equal", 2: "Greater"}
 
 
 def _tail(n):
@@ -151,6 +152,81 @@ def run(ctx, rep):
                   % oc[0].full, oc[0].where())
         else:
             r.ok(key, "decided by rank", cmpb.where())
+    # ------------------------------------------------------------ CASCADE
+    r = rep.rule("C07-CASCADE", "in Ord for JsonValue, a same-type comparison that consults several comparators is a "
+                 "lexicographic cascade: for every combination of comparator outcomes the result is decided by the "
+                 "first comparator (in execution order) that did not answer Equal, it is never Equal when that "
+                 "comparator answered Less or Greater, and Less/Greater of that comparator map to opposite results "
+                 "(otherwise the relation is not transitive)", floor=1,
+                 analysis="A5 partial evaluation, exhaustive over the outcome vectors of the comparator call sites")
+    import itertools
+    for i, vn in enumerate(vnames):
+        sites = []
+        table = {}
+
+        def mk(outcome):
+            order = []
+
+            def model(c, av, envv, pe):
+                if c.dest.get("ty", "") != "std::cmp::Ordering":
+                    return None
+                if all(a is not None and a[0] in ("i", "b") for a in
+                       [pe._deref_all(envv, x) for x in av]) and av:
+                    return None          # a comparison of known integers (the rank): evaluated, not enumerated
+                if c.bb not in sites:
+                    sites.append(c.bb)
+                if c.bb not in order:
+                    order.append(c.bb)
+                k = sites.index(c.bb)
+                return True, ("adt", outcome[k] if k < len(outcome) else 1, ())
+            return model, order
+        # discover the comparator sites with every outcome Equal, then enumerate to a fixpoint
+        n_prev = -1
+        rounds = 0
+        while len(sites) != n_prev and rounds < 4:
+            n_prev = len(sites)
+            rounds += 1
+            table = {}
+            for outcome in itertools.product((1, 0, 2), repeat=max(n_prev, 0)):
+                model, order = mk(outcome)
+                res = PE(cmpb, model, inline=inline, crate=lib, eq_ok=eq_ok).run(
+                    env={1: ("rv", val(i)), 2: ("rv", val(i))})
+                vals = {v for _, v in res.returns}
+                table[outcome] = (tuple(order), vals)
+        if len(sites) < 2:
+            continue
+        key = "cmp[%s,%s]" % (vn, vn)
+        if len(sites) > 5:
+            r.bad(key, "%d comparator sites: not enumerated (unrecognised idiom)" % len(sites), cmpb.where())
+            continue
+        problems = []
+        sign = {}
+        for outcome, (order, vals) in sorted(table.items()):
+            if len(vals) != 1 or list(vals)[0] is None or list(vals)[0][0] != "adt":
+                problems.append("outcomes %s: the result is not determined (%s)" % (outcome, vals))
+                continue
+            got = list(vals)[0][1]
+            first = next((b for b in order if outcome[sites.index(b)] != 1), None)
+            if first is None:
+                if got != 1:
+                    problems.append("every comparator answers Equal but the result is %s" % ORD[got])
+                continue
+            o = outcome[sites.index(first)]
+            if got == 1:
+                problems.append("the comparator at bb%d answers %s but the result is Equal: two objects that differ "
+                                "there are tied although later comparators order objects that agree there "
+                                "(not transitive)" % (first, ORD[o]))
+                continue
+            prev = sign.setdefault((first, o), got)
+            if prev != got:
+                problems.append("the result for comparator bb%d = %s depends on later comparators" % (first, ORD[o]))
+            other = sign.get((first, 2 - o))
+            if other is not None and other == got:
+                problems.append("comparator bb%d: Less and Greater give the same result" % first)
+        if problems:
+            r.bad(key, problems[0] + (" (+%d more)" % (len(problems) - 1) if len(problems) > 1 else ""), cmpb.where())
+        else:
+            r.ok(key, "%d comparator sites, %d outcome vectors: lexicographic" % (len(sites), len(table)), cmpb.where())
     # ------------------------------------------------------------ ONE-ORDER
     r = rep.rule("C07-ONE-ORDER", "every sort / ordered container over JSON values and the functions < <= > >= "
                  "resolve to Ord/PartialOrd for JsonValue (Option<JsonValue>, String keys); PartialOrd::partial_cmp "
